@@ -1,4 +1,5 @@
 import Hls.Client.TimeConvLemmas
+import Hls.Client.Pacing
 /-!
 # C10 — Client delivers every sample of a well-formed stream with normalized time
 
@@ -14,7 +15,11 @@ Reading of the property used here and by the T2 oracle:
   leading track cannot be related to an origin yet and are dropped (`c10_ts_gating`).
 * AbsoluteTime of a unit in a later fragment of the segment is computed in two truncating steps and can be
   1 ns below `PDT + toDur(dts − dts_first)` (`c10_ntp`, second part); in the first fragment it is exact.
-Not covered (wall clock, DESIGN §6 "Partial"): real-time pacing and the 10 s DTS–RTC cap of `handleData`.
+Real-time pacing and the 10 s DTS–RTC cap of `handleData` are modelled with the wall clock as a parameter
+(`Hls/Client/Pacing.lean`, theorems `c10_pace_*` below): whatever the scheduling delays and timer overshoots, the cap
+cannot stop a track whose consecutive DTS are at most 10 s apart, no unit is delivered before its DTS, and the
+cap fires exactly when a unit arrives more than 10 s ahead of the clock. What stays outside is the Go runtime's
+clock and timers themselves (monotone `time.Since`, `time.After` never early).
 -/
 namespace Hls.Props.C10
 open Hls.Gen Hls.Gen.TimeConv Hls.Client.TimeConv Hls.Client.Process Hls.Client.TimeConvLemmas
@@ -401,5 +406,50 @@ example : ConvOK { leadingTimeScale := 90000, leadingBaseTime := 8589934000, ntp
 
 /-- the ≤ 1 ns slack of `c10_ntp` is real: 5 ticks + 5 ticks at 90 kHz -/
 example : timestampToDuration 5 90000 + timestampToDuration 5 90000 + 1 = timestampToDuration 10 90000 := by decide
+
+/-! ## Real-time pacing (`clientTrack.handleData`), wall clock as a parameter -/
+
+open Hls.Client.Pacing in
+/-- T1: the pacing `select` sleeps exactly `diff` and its only other arm is the cancellation; the cap is 10 s -/
+theorem c10_pace_shape : handleDataPaceSleepsDiff = true ∧ handleDataPaceCancelArm = true ∧
+    clientMaxDTSRTCDiff = 10 * 1000000000 := by decide
+
+open Hls.Client.Pacing in
+/-- "delivers every access unit": for EVERY schedule (arbitrary non-negative delays between the calls of a track,
+    arbitrary timer overshoot) the 10 s cap never ends a track whose consecutive DTS are at most 10 s apart and whose
+    first unit is at most 10 s after the origin; every unit is delivered at or after `startRTC + DTS`, in order. -/
+theorem c10_pace_never_stops (as : List Arrival) (hc : Clocked as) (hg : GapsBelowCap 0 as) :
+    ∃ ts, run 0 as = some ts ∧ ts.length = as.length ∧
+      (∀ i (h : i < as.length) (h' : i < ts.length), as[i].dur ≤ ts[i]) ∧ ts.Pairwise (· ≤ ·) := by
+  obtain ⟨ts, h1, h2, h3, _, h5⟩ := run_spec as 0 0 (Int.le_refl 0) hc hg
+  exact ⟨ts, h1, h2, h3, h5⟩
+
+open Hls.Client.Pacing in
+/-- the cap fires exactly when a unit arrives more than 10 s ahead of the clock (so `c10_pace_never_stops` is tight) -/
+theorem c10_pace_cap_iff (d e : Int) : pace d e = .tooBig ↔ clientMaxDTSRTCDiff < d - e := pace_tooBig_iff d e
+
+open Hls.Client.Pacing in
+/-- … and then the run ends there, whatever came before -/
+theorem c10_pace_cap_ends (t : Int) (a : Arrival) (rest : List Arrival)
+    (h : clientMaxDTSRTCDiff < a.dur - (t + a.gap)) : run t (a :: rest) = none := run_cap_fires t a rest h
+
+open Hls.Client.Pacing in
+/-- with exact timers a unit that is ahead of the clock is delivered exactly at its DTS -/
+theorem c10_pace_exact (t : Int) (a : Arrival) (h : t + a.gap < a.dur)
+    (hc : a.dur - (t + a.gap) ≤ clientMaxDTSRTCDiff) (ho : a.over = 0) : run t [a] = some [a.dur] :=
+  run_exact t a h hc ho
+
+open Hls.Client.Pacing in
+/-- non-vacuity: 25 fps units, the second arrives late, the third early with a 1 ms overshoot -/
+example : Clocked [⟨0, 5, 0⟩, ⟨40000000, 50000000, 0⟩, ⟨80000000, 1000, 1000000⟩] ∧
+    GapsBelowCap 0 [⟨0, 5, 0⟩, ⟨40000000, 50000000, 0⟩, ⟨80000000, 1000, 1000000⟩] ∧
+    run 0 [⟨0, 5, 0⟩, ⟨40000000, 50000000, 0⟩, ⟨80000000, 1000, 1000000⟩] = some [5, 50000005, 81000000] := by
+  refine ⟨?_, ?_, by decide⟩
+  · intro a ha; simp at ha; rcases ha with rfl | rfl | rfl <;> decide
+  · simp [GapsBelowCap, clientMaxDTSRTCDiff]
+
+open Hls.Client.Pacing in
+/-- an 11 s hole in the DTS of a track that is delivered in real time ends the client -/
+example : run 0 [⟨0, 0, 0⟩, ⟨11000000000, 1000, 0⟩] = none := by decide
 
 end Hls.Props.C10
